@@ -5,7 +5,7 @@ import os
 
 from common import HarnessError, Pool, bin_path, build, log
 
-PACKAGES = ["simc", "seqc", "simgraph", "simels", "simrepl"]
+PACKAGES = ["simc", "seqc", "simgraph", "simels", "simrepl", "simpyc"]
 
 
 def selftest_lite():
